@@ -127,3 +127,43 @@ def c03(run):
     run.record_and_validate("StrIndex", "Trace_StrIndex", "Trace_StrIndex.cfg",
                             n_files=4 if q else 16, n_events=5000 if q else 20000)
     run.assumptions += [W8, BOUNDED, STD_GUARD]
+
+
+# ------------------------------------------------------------------------------------------- C13 / C14
+def _parser(run, emit_cfg, mc_cfgs, label):
+    q = run.tier == "quick"
+    out = vec("%s-Parser.ndjson" % run.pid)
+    if os.path.exists(out):
+        os.remove(out)
+    # the emitting run: one JSON line per distinct state (witness path + outcome of every operation)
+    run.mc("MC_Parser", emit_cfg, env={"OUT": out}, heap="8g", timeout=6000)
+    run.sample_file(out, k=1)
+    run.samples = [{"s": x.get("s"), "base": x.get("base"), "path": x.get("path"), "st": x.get("st"),
+                    "outs(first 3)": x.get("outs", [])[:3]} for x in run.samples]
+    # deeper model-checking-only runs (no emission)
+    for c in mc_cfgs:
+        run.mc("MC_Parser", c, env={"OUT": "/dev/null"}, heap="8g", timeout=6000)
+    run.replay([out], label)
+    run.record_and_validate("Parser", "Trace_Parser", "Trace_Parser.cfg",
+                            n_files=6 if q else 16, n_events=2500 if q else 10000, timeout=3000)
+    run.assumptions += [BOUNDED, "the string functions used by the Parser model are the reference operators that "
+                        "C04/C05/C12 bind to the code", "start offsets stay below u32::MAX (the struct stores a u32)"]
+
+
+@check("C13", rule="one behaviour = a distinct parser state (original, base, remainder window, start_offset, "
+                    "direction, split flag) with its witness operation path; all 45 operations-with-arguments are "
+                    "applied to it and compared on (remainder position, start/end offset, direction | error offset, "
+                    "direction); non-trivial = path of length >= 1")
+def c13(run):
+    q = run.tier == "quick"
+    _parser(run, "Parser.quick.cfg" if q else "Parser.thorough.cfg",
+            ["Parser.mc4.cfg"] if q else ["Parser.mc4minus.cfg"], "Parser state graph")
+
+
+@check("C14", rule="one behaviour = a distinct parser state with its witness path; every operation's returned "
+                    "value, new remainder and Ok/Err outcome are compared with the string function applied to the "
+                    "old remainder; split protocols are invariants of the model (SplitProtocol)")
+def c14(run):
+    q = run.tier == "quick"
+    _parser(run, "Parser.minus.cfg" if q else "Parser.thorough.cfg",
+            [] if q else ["Parser.mc4minus.cfg"], "Parser state graph (alphabet with '-')")
